@@ -181,7 +181,7 @@ PROPS["C08"] = {
          "supporting": [(O + "ServerLogin::start", "mask"), (O + "ServerLogin::start", "ke2"), (O + "mask_response", "*"), (O + "oprf_key_from_seed", "*"), (O + "ClientLogin::finish", "sound_env"), (M + "CredentialResponse::serialize", "*")],
          "theorems": ["thm_c08_fake_vs_real", "thm_c02_real_env", "thm_c03_exact", "lemma_all_zero_concat"],
     }],
-    "witness": "c08",
+    "witness": "c08", "extra_generators": ["c09"],
     "explanation": "ServerLogin::start's postcondition for password_file == None is the SAME spec function as for Some(rec) with rec := (fake public key, masking key = next Nh tape bytes, all-zero envelope): same evaluation smul(request, OprfKey(seed, cred_id)) independent of record and static key, same types hence same lengths, masking nonce / server nonce / ephemeral key from consecutive disjoint tape segments; both calls succeed or fail together. Client side: a failing envelope gate yields InvalidLoginError (as for a wrong password); server side: C03.",
     "assumptions": [A_PRELUDE, "computational indistinguishability ('unpredictably') is not decidable by contracts; the deterministic content is what is proved", "the all-zero envelope under a random masking key does not pass the envelope gate: C02's named assumption"],
 }
